@@ -302,11 +302,66 @@ def rule_Z5(ctx: Ctx) -> None:
               "inputs and targets are swapped or items reordered in the batch")
 
 
+def rule_Z6(ctx: Ctx) -> None:
+    """the options reach the item as given: the three option fields of RasterizedMazeDatasetConfig are stored and loaded unchanged, and
+    from_base_MazeDataset lets the requested options override whatever the base configuration carries"""
+    from sa.fold import Closure, EvalRaised, Evaluator, Unknown
+
+    c = ctx.index.cls(f"{RZ}.RasterizedMazeDatasetConfig")
+    for name in ("remove_isolated_cells", "extend_pixels", "endpoints_as_open"):
+        f = c.fields.get(name)
+        if f is None:
+            ctx.unknown(c, {"field": name}, "option field declared on RasterizedMazeDatasetConfig")
+            continue
+        bad, unk = [], []
+        for kw in ("loading_fn", "serialization_fn", "deserialize_fn"):
+            fn = f.kwarg(kw)
+            if fn is None:
+                continue
+            for v in (True, False):
+                arg = {name: v, "name": "<n>"} if kw == "loading_fn" else v
+                try:
+                    ev_ = Evaluator()
+                    got = ev_.call(ev_.ev(fn, {}), [arg], {})
+                except EvalRaised as e:
+                    got = f"raises {e.exc_name}"
+                except (Unknown, Exception) as e:
+                    unk.append(f"{kw}: {e}"[:120])
+                    continue
+                if got is not v:
+                    bad.append({kw: X.U(fn)[:80], "stored": v, "comes_back_as": got})
+        ctx.judge(c, False if bad else None if unk else True, {"field": name, "deviations": bad[:2], "undecided": unk[:2]},
+                  "an option field comes back from serialize / load exactly as it was set (True stays True, False stays False)",
+                  "a dataset built through the configuration (from_base_MazeDataset, from_config_augmented) silently uses another option value than the one requested")
+    fb = ctx.index.func(f"{RZ}.RasterizedMazeDataset.from_base_MazeDataset")
+    loads = [x for x in X.calls(fb.node) if isinstance(x.func, ast.Attribute) and x.func.attr == "load" and x.args]
+    exp = "from_base_MazeDataset loads the configuration from the base configuration's record overridden by the requested options (added_params win)"
+    if len(loads) != 1:
+        ctx.unknown(fb, {"load_calls": len(loads)}, exp)
+        return
+    base_p, add_p = fb.params()[1], fb.params()[2]
+
+    def hook(ev_, node, env):
+        if isinstance(node.func, ast.Attribute) and node.func.attr == "serialize" and X.U(node.func.value) == f"{base_p}.cfg":
+            return {"name": "<n>", "remove_isolated_cells": "<base>", "extend_pixels": "<base>", "endpoints_as_open": "<base>"}
+        return NotImplemented
+    try:
+        got = Evaluator({"__call__": hook}).ev(loads[0].args[0], {add_p: {"remove_isolated_cells": "<requested>", "endpoints_as_open": "<requested>"}, base_p: "<base dataset>"})
+        ok = isinstance(got, dict) and got.get("remove_isolated_cells") == "<requested>" and got.get("endpoints_as_open") == "<requested>" and got.get("extend_pixels") == "<base>" \
+            and got.get("name") == "<n>"
+        shown = got
+    except (Unknown, EvalRaised) as e:
+        ok, shown = None, f"undecided: {e}"[:140]
+    ctx.judge(fb, ok, {"record_loaded": shown}, exp,
+              "re-rasterizing an already rasterized dataset with other options keeps the old options: images do not show what the options say", node=loads[0])
+
+
 RULES = [
     Rule("C17.Z1", rule_Z1, floor=5, doc="colour maps"),
     Rule("C17.Z2", rule_Z2, floor=3, doc="no aliasing"),
     Rule("C17.Z3", rule_Z3, floor=1, doc="isolated-cell neighbourhood"),
     Rule("C17.Z4", rule_Z4, floor=1, doc="pixel extension"),
+    Rule("C17.Z6", rule_Z6, floor=4, doc="option plumbing through the configuration: fields stored / loaded unchanged, requested options override the base record"),
     Rule("C17.Z5", rule_Z5, floor=6, doc="post-processing, item and batch plumbing"),
 ]
 
